@@ -5,6 +5,7 @@ package dynamicresources
 
 //@ import rapi "k8s.io/api/resource/v1"
 //@ import types "k8s.io/apimachinery/pkg/types"
+//@ import common_info "github.com/NVIDIA/KAI-scheduler/pkg/scheduler/api/common_info"
 
 // =====================================================================================================================
 // Scheduler-side DRA plugin. Properties:
@@ -226,6 +227,9 @@ package dynamicresources
 // iff it names a claim directly or (template claim) the pod status records a generated name for it
 //@ define rcDirectAt(pod *v1.Pod, j int) bool = pod.Spec.ResourceClaims[j].ResourceClaimName != nil
 //@ define rcResolvableAt(pod *v1.Pod, j int) bool = pod.Spec.ResourceClaims[j].ResourceClaimName != nil || (pod.Spec.ResourceClaims[j].ResourceClaimTemplateName != nil && (exists i int :: 0 <= i && i < len(pod.Status.ResourceClaimStatuses) && resources.rcStatusHit(pod, pod.Spec.ResourceClaims[j].Name, i)))
+// the tracked claim c that reference j of the pod names may take the pod: known, room for one more consumer, and - for a
+// shared GPU claim (referenced by name, GPU device class) - labelled with the job's queue
+//@ define claimAdmissible(drap *draPlugin, job *podgroup_info.PodGroupInfo, pod *v1.Pod, j int, c *rapi.ResourceClaim) bool = c != nil && len(c.Status.ReservedFor) < 256 && (pod.Spec.ResourceClaims[j].ResourceClaimTemplateName != nil || !resources.IsGpuResourceClaim(c) || queueLabelOK(drap, job, c))
 //@ define allocatedNow(c *rapi.ResourceClaim, pod *v1.Pod) bool = c != nil && resources.claimReservedFor(c, pod) && c.Status.Allocation != nil
 //@ define releasedNow(c *rapi.ResourceClaim, pod *v1.Pod) bool = c != nil && !resources.claimReservedFor(c, pod) && (len(c.Status.ReservedFor) == 0 ==> c.Status.Allocation == nil)
 //@ define otherClaimMapsKept(task *pod_info.PodInfo) bool = forall m map[string]*schedulingv1alpha2.ResourceClaimAllocation, n string :: m != task.ResourceClaimInfo && old(allocated(m)) ==> (n in m) == old(n in m) && m[n] == old(m[n])
@@ -299,4 +303,76 @@ package dynamicresources
 //@   props C13 C10
 //@   pure
 //@   ensures result != nil
+//@ end
+
+// ---- C12: the allocation recorded in a live BindRequest is re-assumed at session open ---------------------------------
+// "From the moment the scheduler creates a BindRequest until it reaches a terminal outcome, every snapshot charges the
+// pod's resources (including ... claimed devices) to the selected node": for a claim allocation of the BindRequest whose
+// claim is not yet allocated in the tracker, a copy of the claim that lists the pod as consumer and carries EXACTLY the
+// recorded allocation (the pointer stored in the BindRequest entry) is signalled as pending under the claim's UID; an
+// already allocated claim, an unknown reference and any tracker failure leave the pending table alone.
+//@ define refNamed(pod *v1.Pod, n string) bool = exists i int :: 0 <= i && i < len(pod.Spec.ResourceClaims) && pod.Spec.ResourceClaims[i].Name == n
+//@ func (*draPlugin).assumePendingClaim
+//@   props C12 C10
+//@   requires drap != nil && drap.manager != nil && claim != nil && pod != nil
+//@   modifies family(pending("")), draFaults()
+//@   loop 1
+//@     invariant -1 <= rangeindex && rangeindex < len(pod.Spec.ResourceClaims)
+//@     invariant claimName == ""
+//@     invariant forall j int :: 0 <= j && j <= rangeindex ==> pod.Spec.ResourceClaims[j].Name != claim.Name
+//@     decreases len(pod.Spec.ResourceClaims) - rangeindex
+//@   ensures [faultsOnlyGrow] draFaults() >= old(draFaults())
+//@   ensures [unknownReferenceReported] !refNamed(pod, claim.Name) ==> result != nil
+//@   ensures [failureSignalsNothing] result != nil ==> (forall u string :: pending(u) == old(pending(u)))
+//@   ensures [atMostOneSignal] exists u0 string :: forall u string :: u != u0 ==> pending(u) == old(pending(u))
+//@   ensures [signalledClaimChargesThePod] forall u string :: pending(u) != old(pending(u)) ==> pending(u) != nil && string(pending(u).UID) == u && pending(u).Namespace == pod.Namespace && resources.claimReservedFor(pending(u), pod) && pending(u).Status.Allocation == claim.Allocation
+//@   ensures [signalledClaimIsTheTrackedOne] forall u string :: pending(u) != old(pending(u)) ==> (exists k string :: tracked(k) != nil && string(tracked(k).UID) == u && tracked(k).Name == pending(u).Name && tracked(k).Status.Allocation == nil)
+//@   ensures [successWithoutFaultMeansChargedOrAlreadyAllocated] result == nil ==> draFaults() == old(draFaults())
+//@ end
+
+// NOT under contract: (*draPlugin).assumePendingClaims (the three nested loops that hand every claim allocation of every
+// pod with a live BindRequest to assumePendingClaim). Engine limitation: `for _, pod := range podGroup.GetAllPodsMap()`
+// iterates over the UNNAMED result of a call; a loop invariant cannot name that map, so "every value of the map is a
+// non-nil pod with a non-nil v1.Pod" (needed for the dereferences in the body) cannot be carried; a formulation over all
+// fresh maps (`forall m pod_info.PodsMap :: fresh(m) ==> ...`) is refuted at the loop entry (objects the callee allocates).
+
+// restoreAllClaims: every listed claim goes back to the informer's version; every other key is untouched (C12/C13: the
+// tracker state a session starts from is the API state plus the pending allocations re-assumed right afterwards).
+//@ func (*draPlugin).restoreAllClaims
+//@   props C12 C13 C10
+//@   requires drap != nil && drap.manager != nil
+//@   modifies family(tracked("")), draFaults()
+//@   loop 1
+//@     invariant -1 <= rangeindex && rangeindex < len(claims)
+//@     invariant draFaults() == old(draFaults())
+//@     invariant forall i int :: 0 <= i && i < len(claims) ==> claims[i] != nil
+//@     invariant forall k string :: tracked(k) == old(tracked(k)) || tracked(k) == informerObj(k)
+//@     invariant forall j int :: 0 <= j && j <= rangeindex ==> tracked(draKey(claims[j].Namespace, claims[j].Name)) == informerObj(draKey(claims[j].Namespace, claims[j].Name))
+//@     decreases len(claims) - rangeindex
+//@   ensures [listFailureChangesNothing] draFaults() != old(draFaults()) ==> (forall k string :: tracked(k) == old(tracked(k)))
+//@   ensures [everyKeyKeptOrRestored] forall k string :: tracked(k) == old(tracked(k)) || tracked(k) == informerObj(k)
+//@ end
+
+// ---- C04 / C01 / C10: preFilter ---------------------------------------------------------------------------------------
+// A pod with resource claims is rejected when DRA is disabled; otherwise it is accepted only if every claim reference
+// resolves, the tracker knows the claim, the claim still has room for a consumer (< ResourceClaimReservedForMaxSize = 256)
+// and, for a shared GPU claim, the queue label names the job's queue. Pods without claims are always accepted.
+//@ func (*draPlugin).preFilter
+//@   props C04 C01 C10
+//@   requires drap != nil && drap.manager != nil && task != nil && task.Pod != nil && job != nil
+//@   modifies draFaults()
+//@   loop 1
+//@     invariant -1 <= rangeindex && rangeindex < len(pod.Spec.ResourceClaims)
+//@     decreases len(pod.Spec.ResourceClaims) - rangeindex
+//@   loop 2
+//@     invariant -1 <= rangeindex && rangeindex < len(pod.Spec.ResourceClaims)
+//@     invariant draFaults() == old(draFaults())
+//@     invariant forall j int :: 0 <= j && j <= rangeindex ==> rcResolvableAt(pod, j)
+//@     invariant forall j int :: 0 <= j && j <= rangeindex && rcDirectAt(pod, j) ==> claimAdmissible(drap, job, pod, j, tracked(draKey(pod.Namespace, *pod.Spec.ResourceClaims[j].ResourceClaimName)))
+//@     decreases len(pod.Spec.ResourceClaims) - rangeindex
+//@   ensures [noClaimsAccepted] len(task.Pod.Spec.ResourceClaims) == 0 ==> result == nil && draFaults() == old(draFaults())
+//@   ensures [featureOffRejectsClaims] !drap.enabled && len(task.Pod.Spec.ResourceClaims) > 0 ==> result != nil
+//@   ensures [acceptedMeansNoFault] result == nil ==> draFaults() == old(draFaults())
+//@   ensures [acceptedMeansEveryClaimResolves] result == nil ==> (forall j int :: 0 <= j && j < len(task.Pod.Spec.ResourceClaims) ==> rcResolvableAt(task.Pod, j))
+//@   ensures [acceptedMeansEveryDirectClaimAdmissible] result == nil ==> (forall j int :: 0 <= j && j < len(task.Pod.Spec.ResourceClaims) && rcDirectAt(task.Pod, j) ==> claimAdmissible(drap, job, task.Pod, j, tracked(draKey(task.Pod.Namespace, *task.Pod.Spec.ResourceClaims[j].ResourceClaimName))))
 //@ end
